@@ -90,6 +90,31 @@ def gen_cases(rng, tier):
         s_, t_ = X.var("s_"), X.var("t_")
         body = X.arr([t_, s_, X.unop("count", s_), X.binop(op, s_, rhs), X.unop("count", X.binop("|", t_, s_))])
         asts.append(("reuse %s %s" % (a, op), X.let(X.pvar("s_"), P[a], X.let(X.pvar("t_"), X.binop(op, s_, rhs), body))))
+    # enumerated core: values that have just changed representation, used as MEMBERS under the set operators
+    N_ = X.num
+    pr_ = lambda k, i, v: X.tup([("@", i), (k, v)])
+    changed = [
+        (X.binop("without", X.binop("|", X.dict_([(N_(1), N_(2))]), X.dict_([(N_(1), N_(3))])), pr_("@value", N_(1), N_(3))), X.dict_([(N_(1), N_(2))])),
+        (X.binop("without", X.binop("with", X.dict_([(X.string("a"), N_(1))]), pr_("@value", X.string("a"), N_(2))), pr_("@value", X.string("a"), N_(2))), X.dict_([(X.string("a"), N_(1))])),
+        (X.binop("without", X.arr([N_(1), None, N_(3)]), pr_("@item", N_(2), N_(3))), X.arr([N_(1)])),
+        (X.binop("with", X.binop("without", X.string("abc"), pr_("@char", N_(1), N_(98))), pr_("@char", N_(1), N_(98))), X.string("abc")),
+        (X.binop("without", X.bytes_([1, 2, 3]), pr_("@byte", N_(2), N_(3))), X.bytes_([1, 2])),
+        (X.binop("without", X.set_([N_(1), X.string("a")]), X.string("a")), X.set_([N_(1)])),
+        (X.binop("&~", X.binop("|", X.arr([N_(1), N_(2)]), X.arr([N_(3)], 2)), X.arr([N_(3)], 2)), X.arr([N_(1), N_(2)])),
+        (X.binop("without", X.rel(["a", "b"], [[N_(1), N_(2)], [N_(3), N_(4)]]), X.tup([("a", N_(3)), ("b", N_(4))])), X.rel(["a", "b"], [[N_(1), N_(2)]])),
+    ]
+    for d_, plain in changed:
+        other = X.dict_([(N_(1), N_(3))])
+        asts.append(("member core", X.unop("count", X.set_([d_, plain]))))
+        asts.append(("member core", X.cmpop("<:", plain, X.set_([d_, N_(7)]))))
+        asts.append(("member core", X.cmpop("<:", d_, X.set_([plain, N_(7)]))))
+        asts.append(("member core", X.binop("&", X.set_([d_]), X.set_([plain, other]))))
+        asts.append(("member core", X.binop("&~", X.set_([d_, N_(7)]), X.set_([plain]))))
+        asts.append(("member core", X.binop("|", X.set_([d_]), X.set_([plain]))))
+        asts.append(("member core", X.binop("~~", X.set_([d_, N_(7)]), X.set_([plain, N_(8)]))))
+        asts.append(("member core", X.cmpop("(<=)", X.set_([d_]), X.set_([plain, other]))))
+        asts.append(("member core", X.binop("without", X.set_([plain, N_(7)]), d_)))
+        asts.append(("member core", X.cmpop("=", d_, plain)))
     nrand = 300 if tier == "quick" else 3000
     F, Q = fns(), preds(rng)
     for _ in range(nrand):
@@ -131,7 +156,7 @@ def main(tier, seed, replay=None):
         k = (c.get("label") or "").split(" ")[0]
         labels[k] = labels.get(k, 0) + 1
     evalcheck.stats(run, cases, outs, codes,
-                    "operands from a pool of %d value-constructing programs covering every representation (offsets, holes, multi-valued dict keys, relations, union sets, 10-12 member collections) x the set-algebra operators | & &~ ~~ with without <: (<) (<=) (>) (>=) (<>) (<>=) count where => ^, plus operators applied to results of operators, and an operand inspected again after with / without / &~ / | took one of its own members (`let s = A; let t = s op m; [t, s, s count, s op m, (t | s) count]`); each program is evaluated by syntax.EvaluateExpr and by the Coq reference interpreter (vm_compute); "
+                    "operands from a pool of %d value-constructing programs covering every representation (offsets, holes, multi-valued dict keys, relations, union sets, 10-12 member collections) x the set-algebra operators | & &~ ~~ with without <: (<) (<=) (>) (>=) (<>) (<>=) count where => ^, plus operators applied to results of operators, an enumerated core of values that have just changed representation (multi-valued dict back to single-valued, sparse array back to dense, refilled string hole, ...) used as members under the set operators, and an operand inspected again after with / without / &~ / | took one of its own members (`let s = A; let t = s op m; [t, s, s count, s op m, (t | s) count]`); each program is evaluated by syntax.EvaluateExpr and by the Coq reference interpreter (vm_compute); "
                     % len(pool.base_pool()) + ("thorough = every ordered pair of set-valued pool entries x every binary operator and every set x member for with/without/<: (exhaustive over the pool)" if tier == "thorough" else "quick = random sample"),
                     {"first_operand_histogram": dict(sorted(labels.items(), key=lambda kv: -kv[1])[:40]), "exhaustive": False})
     run.assumptions = ["github.com/arr-ai/frozen implements finite sets/maps for the Equal/Hash it is given",
